@@ -58,8 +58,9 @@ func c19LoadPkg(c *Ctx, name string) *c19Pkg {
 		return nil
 	}
 	p := &c19Pkg{c: c, name: name, pk: pk, info: pk.TypesInfo, covered: map[*FuncInfo]bool{}, parents: c.P.Parents(pk)}
+	dead := c19DeadFuncs(c, pk, c.P.FuncsIn(name))
 	for _, fi := range c.P.FuncsIn(name) {
-		if fi.Decl.Body != nil {
+		if fi.Decl.Body != nil && !dead[fi] {
 			p.funcs = append(p.funcs, fi)
 		}
 	}
@@ -418,6 +419,9 @@ func c19Origin(c *Ctx, fr *c19Frame, e ast.Expr, fv *types.Var, depth int) *c19L
 		case *ast.IndexExpr:
 			if c19SelField(info, t.X) == fv {
 				out = c19LinOf(info, t.Index)
+			} else if low := c19SliceLow(c, fr, t.X, fv, depth+1); low != nil {
+				// element i of fv[low:] (possibly through a local name for the sub-slice) is element low+i of fv
+				out = c19LinOf(info, t.Index).plus(low, 1)
 			} else {
 				out = c19Origin(c, fr, t.X, fv, depth+1)
 			}
@@ -491,15 +495,10 @@ func c19OriginObj(c *Ctx, fr *c19Frame, o *types.Var, fv *types.Var, depth int) 
 		if c19SelField(info, x) == fv {
 			return key
 		}
-		if sl, ok := x.(*ast.SliceExpr); ok && c19SelField(info, sl.X) == fv {
+		if low := c19SliceLow(c, fr, x, fv, depth+1); low != nil {
 			if key == nil {
 				return nil
 			}
-			if sl.Low == nil {
-				return key
-			}
-			var low *c19Lin
-			c19With(fr, func() { low = c19LinOf(info, sl.Low) })
 			return key.plus(low, 1)
 		}
 		return c19Origin(c, fr, x, fv, depth+1)
@@ -650,4 +649,130 @@ func runC19(c *Ctx) {
 		}
 	}
 	c19C = nil
+}
+
+// c19DeadFuncs: unexported functions and methods of the package that nothing live refers to any more. The
+// global helper inliner (gnorm.go) copies the body of a freshly extracted helper into its callers but leaves
+// the declaration in place; such a declaration is code that never runs, so it is neither a root of its own nor
+// a source of stores for the package-wide arguments. Liveness starts from everything exported, init/main,
+// references from package-level initialisers, and unexported methods whose name some interface of the package
+// declares (they can be called through the interface); it follows every reference (call, method value,
+// function value) from live code.
+func c19DeadFuncs(c *Ctx, pk *packages.Package, funcs []*FuncInfo) map[*FuncInfo]bool {
+	info := pk.TypesInfo
+	byObj := map[types.Object]*FuncInfo{}
+	for _, fi := range funcs {
+		byObj[fi.Obj] = fi
+	}
+	ifaceMethods := map[string]bool{}
+	for _, f := range pk.Syntax {
+		ast.Inspect(f, func(n ast.Node) bool {
+			if it, ok := n.(*ast.InterfaceType); ok && it.Methods != nil {
+				for _, m := range it.Methods.List {
+					for _, nm := range m.Names {
+						ifaceMethods[nm.Name] = true
+					}
+				}
+			}
+			return true
+		})
+	}
+	refs := map[*FuncInfo][]*FuncInfo{}
+	live := map[*FuncInfo]bool{}
+	var work []*FuncInfo
+	mark := func(fi *FuncInfo) {
+		if fi != nil && !live[fi] {
+			live[fi] = true
+			work = append(work, fi)
+		}
+	}
+	for _, f := range pk.Syntax {
+		for _, d := range f.Decls {
+			var owner *FuncInfo
+			if fd, ok := d.(*ast.FuncDecl); ok {
+				// (a declaration that is not in the list: whatever it refers to stays live)
+				owner = byObj[info.Defs[fd.Name]]
+			}
+			ast.Inspect(d, func(n ast.Node) bool {
+				id, ok := n.(*ast.Ident)
+				if !ok {
+					return true
+				}
+				callee := byObj[info.Uses[id]]
+				if callee == nil {
+					return true
+				}
+				if owner == nil {
+					mark(callee)
+				} else if owner != callee {
+					refs[owner] = append(refs[owner], callee)
+				}
+				return true
+			})
+		}
+	}
+	for _, fi := range funcs {
+		name := fi.Decl.Name.Name
+		if ast.IsExported(name) || name == "init" || name == "main" || name == "_" || (fi.Decl.Recv != nil && ifaceMethods[name]) {
+			mark(fi)
+		}
+	}
+	for len(work) > 0 {
+		fi := work[len(work)-1]
+		work = work[:len(work)-1]
+		for _, r := range refs[fi] {
+			mark(r)
+		}
+	}
+	dead := map[*FuncInfo]bool{}
+	for _, fi := range funcs {
+		if !live[fi] {
+			dead[fi] = true
+		}
+	}
+	return dead
+}
+
+// c19SliceLow: e denotes the sub-slice fv[low:...] of the slice field fv — written in place, as a slice of such
+// a sub-slice, or through a local that is defined once as such an expression and whose operands are not
+// written afterwards (so that `low` read at the use is the value the slice was cut at). Returns low as a linear
+// form in the frame's vocabulary (zero for the field itself), nil when e is nothing of the kind.
+func c19SliceLow(c *Ctx, fr *c19Frame, e ast.Expr, fv *types.Var, depth int) *c19Lin {
+	if e == nil || depth > 6 {
+		return nil
+	}
+	info := fr.fi.Pkg.TypesInfo
+	var out *c19Lin
+	c19With(fr, func() {
+		switch t := unparen(e).(type) {
+		case *ast.SelectorExpr:
+			if c19SelField(info, t) == fv {
+				out = c19NewLin()
+			}
+		case *ast.SliceExpr:
+			base := c19SliceLow(c, fr, t.X, fv, depth+1)
+			if base == nil {
+				return
+			}
+			if t.Low != nil {
+				if !isIntegerExpr(info, t.Low) {
+					return
+				}
+				base = base.plus(c19LinOf(info, t.Low), 1)
+			}
+			out = base
+		case *ast.Ident:
+			v, ok := info.ObjectOf(t).(*types.Var)
+			if !ok {
+				return
+			}
+			if _, isSlice := v.Type().Underlying().(*types.Slice); !isSlice {
+				return
+			}
+			if def, stmt := c19LocalDef(fr.fi, v); def != nil && c19DefValidAt(c, fr.fi, stmt, def, nil) {
+				out = c19SliceLow(c, fr, def, fv, depth+1)
+			}
+		}
+	})
+	return out
 }
